@@ -264,12 +264,17 @@ func (l *Listener) IsClosed() bool {
 type DialOpts struct {
 	Remote      *net.TCPAddr // address the server sees as the peer; default 192.0.2.x:port
 	ServerHooks *Hooks       // hooks on the server-side (accepted) conn
+	// ServerWriteBuffer > 0: what the server writes is buffered up to that many octets only (a client with small socket buffers)
+	ServerWriteBuffer int
 }
 
 // Dial creates a pipe and hands the server side to Accept. It returns the client side and the
 // server-side wrapper (for Close counting). ok=false if the listener is closed.
 func (l *Listener) Dial(o DialOpts) (client *Conn, server *Conn, err error) {
 	cp, sp := newBufPipe()
+	if o.ServerWriteBuffer > 0 {
+		cp, sp = newBufPipeLimited(o.ServerWriteBuffer)
+	}
 	l.mu.Lock()
 	l.portSeq++
 	seq := l.portSeq
